@@ -119,6 +119,8 @@ class MResult:
         self.inlined = []
         self.wall_s = 0.0
         self.log = ""
+        self.blocks = 0
+        self.edges = 0
 
     def evidence(self):
         return dict(engine="mir-smt", unit=self.unit.name, bounds=self.unit.bounds, functions=self.unit.functions,
@@ -127,6 +129,7 @@ class MResult:
                                       solvers={k: dict(status=v[0], seconds=round(v[1], 3)) for k, v in o.results.items()})
                                  for o in self.obs],
                     std_models_used=self.models_used, crate_functions_translated=self.inlined,
+                    symbolic_states=self.blocks, symbolic_transitions=self.edges,
                     reasons=self.cls["reasons"], wall_s=round(self.wall_s, 1))
 
 
@@ -134,6 +137,7 @@ def run_unit(u, scratch, pid):
     from . import smt_props
     res = MResult(u)
     t0 = time.time()
+    b0, e0 = mir.COUNTERS["blocks"], mir.COUNTERS["edges"]
     try:
         text = dump_mir(scratch)
         funcs = mir.parse_mir(text)
@@ -173,6 +177,8 @@ def run_unit(u, scratch, pid):
         res.cls["verdict"] = "inconclusive"
         res.cls["reasons"].append("MIR translation failed (the function's shape changed?): %r" % (e,))
     res.wall_s = time.time() - t0
+    res.blocks = mir.COUNTERS["blocks"] - b0
+    res.edges = mir.COUNTERS["edges"] - e0
     return res
 
 
